@@ -14,7 +14,7 @@ Two case layers (pattern of harness/c10.py):
                     property's list (`flagged`).  Never matched by a known finding.
   * layer=property  emitted for specifications in the area of such a row (python replica of the four
                     facts); the check is the property's postcondition on the observation alone; its
-                    signature is what known_findings.d/C15.json matches.
+                    signature is what known_findings.json matches.
 """
 from __future__ import annotations
 
